@@ -12,14 +12,12 @@ if os.path.join(REPO, "src") not in sys.path:
     sys.path.insert(0, os.path.join(REPO, "src"))
 
 import sansldap
-from sansldap import _messages as M
+
+from names import NS as M  # library names, wherever the package defines them now (see names.py)
 
 import custom_types as CT
 
-try:
-    FilterSyntaxError = sansldap.FilterSyntaxError
-except AttributeError:  # pragma: no cover
-    from sansldap._filter import FilterSyntaxError  # noqa: F401
+FilterSyntaxError = M.FilterSyntaxError
 
 OID_PAGED = "1.2.840.113556.1.4.319"
 OID_DELETED = "1.2.840.113556.1.4.417"
@@ -49,6 +47,33 @@ def pack_octets(b: bytes) -> bytes:
     w = _writer()
     w.write_octet_string(b)
     return bytes(w.get_data())
+
+
+class _LengthOnly:
+    """stands in for a content buffer of a given length without allocating it"""
+
+    def __init__(self, n):
+        self.n = n
+
+    def __len__(self):
+        return self.n
+
+    def __bytes__(self):
+        return b""
+
+
+def pack_header(cls: int, cons: bool, num: int, n: int):
+    """identifier + length octets the public writer produces for a value of `n` content octets.  Up to 1 MiB a real buffer
+    is written and cut off again; beyond that a length-only stand-in is tried, and None is returned when the writer
+    needs a real buffer (a zero-copy writer): the case is then skipped, not judged"""
+    if n <= 1 << 20:
+        full = pack_tlv(cls, cons, num, bytes(n))
+        return full[: len(full) - n]
+    try:
+        got = pack_tlv(cls, cons, num, _LengthOnly(n))
+    except (TypeError, ValueError, BufferError, MemoryError, OverflowError):
+        return None
+    return got
 
 
 def pack_tlv(cls: int, cons: bool, num: int, content) -> bytes:
